@@ -259,8 +259,38 @@ theorem fact_server_protocol :
     (Generated.Netfilter.portFileSavedBeforeSetup && Generated.Netfilter.hostportsOpenedBeforeSave
       && Generated.Netfilter.addFailureRunsCleanup && Generated.Netfilter.delRunsCleanup
       && Generated.Netfilter.cleanupClosesHostports && Generated.Netfilter.cleanupMissingFileIsNoop
-      && Generated.Netfilter.cleanupSkipsEmptyRecord && Generated.Netfilter.cleanupRemovesFileAfterClean) = true := by
+      && Generated.Netfilter.cleanupSkipsEmptyRecord && Generated.Netfilter.cleanupRemovesFileAfterClean
+      && Generated.Netfilter.parsePortsSetsBarePodName && Generated.Netfilter.addPathOverwritesPodName
+      && Generated.Netfilter.startupUsesParsePorts) = true := by
   decide
+
+/-- The start-up sync after a daemon restart (`setupIPtables`: ports from `parsePorts(pod)`) and the per-pod ADD path
+    (`parsePorts`, then PodName overwritten with the request's pod name) name a pod's ports alike, so both compute the
+    SAME chain names (the pod name is part of the hash input) — otherwise a restart would re-create the pod's chains
+    under other names and the later DEL, which works from the port file written by the ADD path, would leave them. -/
+theorem restart_uses_same_chain_names (hash : String → String) (name ns : String) (p : Port) :
+    startupPodName name ns = addPodName name ns ∧
+    chainName hash (withPodName (startupPodName name ns) p) = chainName hash (withPodName (addPodName name ns) p) := by
+  have h : startupPodName name ns = addPodName name ns := by
+    simp [startupPodName, addPodName, Generated.Netfilter.parsePortsSetsBarePodName,
+      Generated.Netfilter.addPathOverwritesPodName]
+  exact ⟨h, by rw [h]⟩
+
+/-- Consequently a restart leaves the port list of a live pod, as the ADD path recorded it, unchanged, and
+    `sync_all_exact` applies to it: after the restart the pod's chains are the ones the ADD created. -/
+theorem restart_syncs_recorded_ports (hash : String → String) (s : PodState) (name ns : String) (ann : Bool)
+    (live : List Port) (hrec : ∀ p ∈ live, p.podName = addPodName name ns) :
+    restartPod hash s name ns ann live = (⟨(syncAll hash s.T live).1, s.file⟩, (syncAll hash s.T live).2.isNone) := by
+  have hmap : live.map (withPodName (startupPodName name ns)) = live := by
+    rw [(restart_uses_same_chain_names hash name ns ⟨0, "", 0, "", "", ""⟩).1]
+    conv => rhs; rw [← List.map_id live]
+    apply List.map_congr_left
+    intro p hp
+    have h := hrec p hp
+    cases p
+    simp only [withPodName, id] at h ⊢
+    rw [h]
+  cases ann <;> simp [restartPod, hmap]
 
 /-- "Setting up … and cleaning them up again leaves no chain or rule of that pod behind", at the level of the
     daemon and for a setup that FAILS: whichever iptables call of SetupPortMapping fails (k = 0 the restore,
